@@ -88,7 +88,7 @@ func raceScenario(s *Sim, params map[string]string) {
 	if params["force"] == "silent-produce" {
 		cl.F = FaultCfg{Stall: 1000, StallReset: 2 * time.Second, APIs: map[int16]bool{0: true}, Until: 3 * time.Second}
 	}
-	program := Pick(t, "cfg", "writer", "reader", "group", "conn", "client", "balancers", "codecs", "batch")
+	program := Pick(t, "cfg", "writer", "reader", "group", "conn", "client", "balancers", "codecs", "batch", "conns")
 	if t.Intn("wide", 12) == 0 {
 		program = "widetopics"
 	}
@@ -380,6 +380,54 @@ func raceScenario(s *Sim, params map[string]string) {
 			conn.Close()
 		})
 		_ = ctx
+
+	case "conns":
+		// several connections used side by side, each by one goroutine: they
+		// share nothing the caller can see, only the package's pools of
+		// scratch buffers and codec objects. Compressed writes of requests
+		// larger than a connection's write buffer, and reads of compressed
+		// batches, from every one of them at once.
+		d := &kafka.Dialer{DialFunc: n.Dialer("race-conns"), ClientID: "race", Timeout: 2 * time.Second}
+		nc := t.Range("cfg", 2, 5)
+		for a := 0; a < nc; a++ {
+			r := seedOf()
+			part := a % 3
+			s.Go(fmt.Sprintf("cs%d", a), func() {
+				conn, err := d.DialLeader(context.Background(), "tcp", addr, "rx", part)
+				if err != nil {
+					return
+				}
+				defer conn.Close()
+				for i := 0; i < 3+r.intn(6); i++ {
+					conn.SetDeadline(time.Now().Add(3 * time.Second))
+					if r.intn(3) == 0 {
+						conn.Seek(int64(r.intn(4)), kafka.SeekAbsolute)
+						b := conn.ReadBatch(1, 1<<20)
+						for j := 0; j < 1+r.intn(8); j++ {
+							if _, err := b.ReadMessage(); err != nil {
+								break
+							}
+						}
+						b.Close()
+					} else {
+						msgs := make([]kafka.Message, 1+r.intn(4))
+						for j := range msgs {
+							v := make([]byte, 2000+r.intn(30000))
+							x := uint64(r.intn(1<<30)) + 1
+							for k := range v {
+								x ^= x << 13
+								x ^= x >> 7
+								x ^= x << 17
+								v[k] = byte(x)
+							}
+							msgs[j] = kafka.Message{Value: v}
+						}
+						conn.WriteCompressedMessages(kafka.Compression(1+r.intn(4)).Codec(), msgs...)
+					}
+					ops.Add(1)
+				}
+			})
+		}
 
 	case "batch":
 		d := &kafka.Dialer{DialFunc: n.Dialer("race-batch"), ClientID: "race", Timeout: 2 * time.Second}
